@@ -372,7 +372,23 @@ def _r4(ctx, rep, eff):
             if len(c.args) < 2:
                 raise AnalysisError("execute(): _create_order_package call shape not understood")
             lst, pt = utext(c.args[0]), utext(c.args[1])
-            pairs.append((lst, pt))
+            # table-driven form: `for pending, package_type, .. in ((self._pending_place, PLACE, ..), ..)`: the pairs
+            # are the rows of the table (a literal tuple / list of tuples, directly or through one local)
+            rows = None
+            for lp_ in walk_nodes(ex.node.body, ast.For):
+                if c in walk_calls(lp_.body) and isinstance(lp_.target, ast.Tuple):
+                    names_ = [utext(e_) for e_ in lp_.target.elts]
+                    if lst in names_ and pt in names_:
+                        from sa.kinds import resolve_local
+                        it_ = resolve_local(ex, lp_.iter)
+                        if isinstance(it_, (ast.Tuple, ast.List)) and it_.elts and all(
+                                isinstance(r_, (ast.Tuple, ast.List)) and len(r_.elts) == len(names_) for r_ in it_.elts):
+                            i_, j_ = names_.index(lst), names_.index(pt)
+                            rows = [(utext(r_.elts[i_]), utext(r_.elts[j_])) for r_ in it_.elts]
+            if rows is not None:
+                pairs.extend(rows)
+            else:
+                pairs.append((lst, pt))
             guards = [utext(g.exprs[0]) for g, pol in cfg.guards(n.id) if pol]
             rep.check(lst in guards, "R4a", key(ex, c, "guarded by its own list"), ex, c,
                       "guards: %s" % guards)
